@@ -69,8 +69,19 @@ func checkPackageVarsFrozen(p *core.Program, r *core.Report, rule string, pkg *s
 		return false
 	}
 	var globals []*ssa.Global
+	// scope. Library: the exported variables (the documented surface: presets, budget, shipped lists)
+	// and the class table, found by role. An unexported variable added later (a cache, a pool) carries
+	// no documented value; whether writing it is safe is C14's and C15's question, not this rule's.
+	// CLI: every variable (tables, defaults, preset map, flag variables, flag sets).
+	tbl := ""
+	if pkg == p.Lib {
+		tbl = classTableName(p)
+	}
 	for _, m := range pkg.Members {
 		if g, ok := m.(*ssa.Global); ok && g.Name() != "init$guard" {
+			if pkg == p.Lib && !(g.Object() != nil && g.Object().Exported()) && g.Name() != tbl {
+				continue
+			}
 			globals = append(globals, g)
 		}
 	}
